@@ -236,6 +236,7 @@ func runC11(c *Ctx, r *Report) {
 	c11wiring(c, r)
 	c11ownership(c, r)
 	c11resets(c, r)
+	c11separators(c, r)
 }
 
 func c11tables(c *Ctx, r *Report, interp *ssa.Function) {
@@ -992,6 +993,130 @@ func c11resets(c *Ctx, r *Report) {
 				at = interp.Pos()
 			}
 			r.check(fmt.Sprint(s.sets) == ref, fmt.Sprintf("fzf.interpretCode:reset site %d agrees", i), at, interp, "resets "+fmt.Sprint(s.sets), "resets "+fmt.Sprint(s.sets)+" but the first site resets "+ref)
+		}
+	}
+}
+
+// c11separators: R11 — both SGR parameter separators are searched for before a parameter is split off.
+func c11separators(c *Ctx, r *Report) {
+	l := c.L
+	r.rule("C11-R11", "P (must-pass-through) + E (separator class)", "P1",
+		"parseAnsiCode cuts the next parameter at a separator of the class [;:] (the class the scanner admits inside a CSI sequence): on every path to the cut, the remaining text has been searched for each of the separator bytes the function knows",
+		"in a sequence that uses both separators (ESC[38:5:100;4m) the cut is made at a later `;` although a `:` comes first: the colour is dropped or misread")
+	parse := l.Fn("fzf", "parseAnsiCode")
+	if parse == nil {
+		r.unest("anchors", token.NoPos, nil, "anchor parseAnsiCode", "cannot resolve")
+		return
+	}
+	// separator searches: strings.IndexByte(_, const) / IndexAny / IndexRune
+	type search struct {
+		sep string
+		in  ssa.Instruction
+	}
+	var searches []search
+	seps := map[string]bool{}
+	eachInstr(parse, func(in ssa.Instruction) {
+		cc, ok := isCall(in, "strings.IndexByte", "strings.IndexRune", "strings.IndexAny")
+		if !ok {
+			return
+		}
+		a := callArgs(cc)[1]
+		if k, isc := constIntVal(a); isc {
+			s := string(rune(k))
+			searches = append(searches, search{s, in})
+			seps[s] = true
+		} else if s, isc := constString(a); isc {
+			for _, ch := range s {
+				searches = append(searches, search{string(ch), in})
+				seps[string(ch)] = true
+			}
+		}
+	})
+	r.floor("separator searches in parseAnsiCode", len(searches), 2)
+	// the cut: slices of the parameter s whose bound derives from a search result
+	s0 := parse.Params[0]
+	var cuts []ssa.Instruction
+	eachInstr(parse, func(in ssa.Instruction) {
+		sl, ok := in.(*ssa.Slice)
+		if !ok {
+			return
+		}
+		isParam := false
+		for v := range backwardSlice(sl.X, nil, nil) {
+			if v == ssa.Value(s0) {
+				isParam = true
+			}
+		}
+		if !isParam {
+			return
+		}
+		// a prefix that is only the haystack of another separator search is not the cut
+		if sl.Referrers() != nil && len(*sl.Referrers()) > 0 {
+			onlyHaystack := true
+			for _, ref := range *sl.Referrers() {
+				isS := false
+				for _, se := range searches {
+					if se.in == ref {
+						isS = true
+					}
+				}
+				if !isS {
+					onlyHaystack = false
+				}
+			}
+			if onlyHaystack {
+				return
+			}
+		}
+		for _, bnd := range []ssa.Value{sl.Low, sl.High} {
+			if bnd == nil {
+				continue
+			}
+			for v := range backwardSlice(bnd, nil, nil) {
+				if call, ok := v.(*ssa.Call); ok {
+					for _, se := range searches {
+						if se.in == ssa.Instruction(call) {
+							cuts = append(cuts, in)
+							return
+						}
+					}
+				}
+			}
+		}
+	})
+	r.floor("cuts of the parameter string", len(cuts), 1)
+	var sepList []string
+	for s := range seps {
+		sepList = append(sepList, s)
+	}
+	sort.Strings(sepList)
+	entry := parse.Blocks[0].Instrs[0]
+	for _, sep := range sepList {
+		isSearch := func(in ssa.Instruction) bool {
+			for _, se := range searches {
+				if se.in == in && se.sep == sep {
+					return true
+				}
+			}
+			return false
+		}
+		isCut := func(in ssa.Instruction) bool {
+			for _, c := range cuts {
+				if c == in {
+					return true
+				}
+			}
+			return false
+		}
+		var bad ssa.Instruction
+		if !isSearch(entry) { // pathAvoiding starts after `entry`
+			bad = pathAvoiding(entry, isCut, isSearch, nil)
+		}
+		key := fmt.Sprintf("fzf.parseAnsiCode:cut after searching %q", sep)
+		if bad != nil {
+			r.bad(key, bad.Pos(), parse, fmt.Sprintf("every path to the cut has searched for %q", sep), fmt.Sprintf("a path reaches the cut at %s without having looked for %q: an earlier %q is ignored when another separator occurs later", l.pos(bad.Pos()), sep, sep))
+		} else {
+			r.ok(key, parse.Pos(), parse, fmt.Sprintf("every path to the cut has searched for %q", sep))
 		}
 	}
 }
